@@ -312,14 +312,18 @@ bool KDTree<CoordType, ValueType>::delete_node(Node* n) {
   bool was_leaf_node = true;
   while (n->before || n->after_or_equal) {
     was_leaf_node = false;
-    Node* target;
-    if (n->before) {
-      target = KDTree::find_subtree_min_max(n->before, n->dim, true);
-    } else if (n->after_or_equal) {
-      target = KDTree::find_subtree_min_max(n->after_or_equal, n->dim, false);
-    } else {
-      throw std::logic_error("node is a leaf but still claims to be movable");
+    // the replacement has to be the minimum (along this node's dimension) of
+    // the after_or_equal subtree: everything in before is strictly less than
+    // it, and everything else in after_or_equal is greater or equal. (the
+    // maximum of the before subtree does not work, because other points in
+    // before may tie with it and would then be on the wrong side.) if there
+    // is only a before subtree, all of it is greater or equal to its own
+    // minimum, so it becomes the after_or_equal subtree.
+    if (!n->after_or_equal) {
+      n->after_or_equal = n->before;
+      n->before = nullptr;
     }
+    Node* target = KDTree::find_subtree_min_max(n->after_or_equal, n->dim, false);
     n->pt = target->pt;
     n->value = std::move(target->value);
     n = target;
